@@ -21,6 +21,14 @@
     e2undo's guard chain expects (stage reached, io / csum / incomplete flags at the final "force a fsck" guard).  The
     expectation is compared with the real run as EVIDENCE that the universe reaches every guard (never a verdict); the
     verdict is ToolRunZ's: no effective write-class step on a descriptor of the target, digest equal.
+(4) Round 3 -- the target is the SET of devices the invocation names or reaches (ToolRunZ!TargetObjs): a filesystem with an
+    EXTERNAL journal device (mke2fs -O journal_dev, attached by UUID) is two target devices.  ToolRunUniv section 4 is the
+    catalogue: journal flavour (plain / JBD2 checksum v3) x state of the journal device (clean / needs recovery / s_errno set /
+    both / two users / foreign UUID / journal superblock checksum bad / no magic) x invocation form of every tool x how the
+    journal device is reached (-j / logdump -f option, s_journal_uuid lookup through libblkid, or the journal device itself on
+    the command line), plus writing control runs in the states where a read-write e2fsck writes the journal device.  The
+    recorder reports the journal device as object 3; Trace_ToolRun treats it exactly like object 0 (no effective
+    write-class step in class "ro") and the exit line carries the sha256 comparison of BOTH devices.
     Crashes / hangs (> 20 s) on corrupted images are property C06's business: recorded under c06_observations;
     C13 is still checked on those runs.  Exit codes outside the contract table are recorded under
     exit_contract_observations (the property text is about the bytes of the device, not about exit codes)."""
@@ -43,7 +51,8 @@ Inv = collections.namedtuple("Inv", "id tool cls argv group meta", defaults=(Non
 # argv tokens: {img} private copy of the state, {out} host file, {outdir} host directory, {undo} private copy of the undo
 # log of the state (its profile's tune2fs log, or the log of an e2undo catalogue state), {zout} the file named by -z
 # (prepared in the state meta["zfile"] says), {host} a small host file, {bk} a backup superblock location of the -g 2048
-# geometries.  The target is iotrace object 0, {zout} object 1, {undo} object 2.
+# geometries, {jnl} private copy of the external journal device of the state.  The target set is iotrace objects 0 ({img})
+# and 3 ({jnl}); {zout} is object 1, {undo} object 2 (auxiliary files).
 UNIV_TLA = os.path.join(SPEC, "Emit_ToolRunUniv.tla")
 UNIV_CFG = os.path.join(SPEC, "Emit_ToolRunUniv.cfg")
 MIXED_SCRIPT = ["cd dir1", "ls -l", "mkdir x", "write {host} y", "cd /", "rm file_small", "stat file_small", "cat file_small",
@@ -68,6 +77,51 @@ ZFORM_ARGV = {
 }
 
 
+TARGET_OBJS = (0, 3)            # python transcription of ToolRunZ!TargetObjs (prediction only; TLC decides)
+XJ_SCRIPT = ["logdump", "jo", "jw -b 333 /dev/zero", "jc", "jr", "logdump -a"]
+XJ_SCRIPT_F = ["logdump -f {jnl}", "jo -f {jnl}", "jw -b 333 /dev/zero", "jc", "logdump -a -f {jnl}"]
+# argv of ToolRunUniv!ExtJForms / ExtJControls: (tool, form, reach) (a form without an entry here = check broken)
+EXTJ_ARGV = {
+    ("e2fsck", "n", "opt"): ["@e2fsck", "-n", "-j", "{jnl}", "{img}"],
+    ("e2fsck", "fn", "opt"): ["@e2fsck", "-fn", "-j", "{jnl}", "{img}"],
+    ("e2fsck", "n_journal_only", "opt"): ["@e2fsck", "-n", "-E", "journal_only", "-j", "{jnl}", "{img}"],
+    ("e2fsck", "fn_z", "opt"): ["@e2fsck", "-fn", "-z", "{zout}", "-j", "{jnl}", "{img}"],
+    ("e2fsck", "n", "uuid"): ["@e2fsck", "-n", "{img}"],
+    ("e2fsck", "fn", "uuid"): ["@e2fsck", "-fn", "{img}"],
+    ("e2fsck", "n", "self"): ["@e2fsck", "-n", "{jnl}"],
+    ("debugfs", "logdump_f", "opt"): ["@debugfs", "-R", "logdump -f {jnl}", "{img}"],
+    ("debugfs", "logdump_af", "opt"): ["@debugfs", "-R", "logdump -a -f {jnl}", "{img}"],
+    ("debugfs", "logdump_Sf", "opt"): ["@debugfs", "-R", "logdump -S -f {jnl}", "{img}"],
+    ("debugfs", "logdump", "uuid"): ["@debugfs", "-R", "logdump", "{img}"],
+    ("debugfs", "logdump_a", "uuid"): ["@debugfs", "-R", "logdump -a", "{img}"],
+    ("debugfs", "ls", "uuid"): ["@debugfs", "-R", "ls -l", "{img}"],
+    ("debugfs", "jo_f_refused", "opt"): ["@debugfs", "-R", "jo -f {jnl}", "{img}"],
+    ("debugfs", "jr_refused", "uuid"): ["@debugfs", "-R", "jr", "{img}"],
+    ("debugfs", "jo_refused", "uuid"): ["@debugfs", "-R", "jo", "{img}"],
+    ("debugfs", "logdump_f_nofs", "self"): ["@debugfs", "-R", "logdump -f {jnl}"],
+    ("debugfs", "stats", "self"): ["@debugfs", "-R", "stats", "{jnl}"],
+    ("debugfs", "c_logdump", "uuid"): ["@debugfs", "-c", "-R", "logdump", "{img}"],
+    ("debugfs_script", "journal", "uuid"): ["@debugfs", "-f", "@script:" + "\n".join(XJ_SCRIPT), "{img}"],
+    ("debugfs_script", "journal_f", "opt"): ["@debugfs", "-f", "@script:" + "\n".join(XJ_SCRIPT_F), "{img}"],
+    ("dumpe2fs", "plain", "self"): ["@dumpe2fs", "{jnl}"],
+    ("dumpe2fs", "h", "self"): ["@dumpe2fs", "-h", "{jnl}"],
+    ("dumpe2fs", "plain", "uuid"): ["@dumpe2fs", "{img}"],
+    ("tune2fs", "l", "self"): ["@tune2fs", "-l", "{jnl}"],
+    ("tune2fs", "l", "uuid"): ["@tune2fs", "-l", "{img}"],
+    ("e2image", "normal", "self"): ["@e2image", "{jnl}", "{out}"],
+    ("e2image", "r", "self"): ["@e2image", "-r", "{jnl}", "{out}"],
+    ("e2image", "normal", "uuid"): ["@e2image", "{img}", "{out}"],
+    ("e2image", "r", "uuid"): ["@e2image", "-r", "{img}", "{out}"],
+    ("resize2fs", "P", "uuid"): ["@resize2fs", "-P", "{img}"],
+    ("e2freefrag", "plain", "uuid"): ["@e2freefrag", "{img}"],
+    ("e2freefrag", "plain", "self"): ["@e2freefrag", "{jnl}"],
+    ("mke2fs", "n_journal_dev", "self"): ["@mke2fs", "-n", "-O", "journal_dev", "{jnl}"],
+    ("mke2fs", "n_J_device", "opt"): ["@mke2fs", "-n", "-t", "ext4", "-J", "device={jnl}", "{img}"],
+    ("e2fsck", "fy", "opt"): ["@e2fsck", "-fy", "-j", "{jnl}", "{img}"],
+    ("e2fsck", "p", "opt"): ["@e2fsck", "-p", "-j", "{jnl}", "{img}"],
+}
+
+
 def load_universe(work):
     """The catalogues of spec/ToolRunUniv.tla, enumerated by TLC (its ASSUMEs -- DryNeverFsck, GuardCoverage -- are
     evaluated in the same run: a catalogue that does not reach every disjunct of e2undo's final guard is an error)."""
@@ -76,12 +130,16 @@ def load_universe(work):
     if not r.ok or not os.path.exists(out):
         die_broken("TLC could not enumerate the universe (Emit_ToolRunUniv): %s\n%s" % (r.error, r.out[-1500:]))
     u = json.load(open(out))
-    for k in ("zinv", "axes", "undo"):
+    for k in ("zinv", "axes", "undo", "extj"):
         if not u.get(k):
             die_broken("universe catalogue %r is empty" % k)
     missing = sorted({(z["tool"], z["form"]) for z in u["zinv"]} - set(ZFORM_ARGV))
     if missing:
         die_broken("no command line for the -z forms %s of ToolRunUniv!ZForms" % missing)
+    missing = sorted({(x["tool"], x["form"], x["reach"]) for x in u["extj"]} - set(EXTJ_ARGV))
+    if missing:
+        die_broken("no command line for the external-journal forms %s of ToolRunUniv!ExtJForms" % missing)
+    u["extj_images"] = [dict(profile=p_, jstate=j_) for p_, j_ in sorted({(x["profile"], x["jstate"]) for x in u["extj"]})]
     u["undo_catalogue"] = [dict(defect=d, rel=r_) for d, r_ in sorted({(x["defect"], x["rel"]) for x in u["undo"]})]
     u["tlc"] = r
     return u
@@ -200,6 +258,9 @@ def invocations(univ=None):
         for fl, zz in sorted({(x["flags"], x["z"]) for x in univ["undo"]}):
             add("undo:%s%s" % (fl, ":z" if zz else ""), "e2undo", ["@e2undo", "-" + fl] + (["-z", "{zout}"] if zz else []) + ["{undo}", "{img}"],
                 "e2undo_catalogue", meta={"flags": fl, "z": zz, "zfile": "absent"})
+        for t, f, rch, cl in sorted({(x["tool"], x["form"], x["reach"], x["class"]) for x in univ["extj"]}):
+            add("xj:%s-%s:%s%s" % (t, f, rch, "" if cl == "ro" else ":ctl"), t, EXTJ_ARGV[(t, f, rch)], "extj_" + ("ctl" if cl == "rw" else t), cl,
+                meta={"form": f, "reach": rch, "zfile": "absent"})
     ids = [i.id for i in L]
     assert len(ids) == len(set(ids)), "duplicate invocation id"
     return L
@@ -237,13 +298,14 @@ class Runner:
         self.lock = threading.Lock()
         self.digest = {}
 
-    def state_digest(self, st):
+    def state_digest(self, st, path=None):
+        path = path or st.path
         with self.lock:
-            d = self.digest.get(st.path)
+            d = self.digest.get(path)
         if d is None:
-            d = hashlib.sha256(open(st.path, "rb").read()).hexdigest()
+            d = hashlib.sha256(open(path, "rb").read()).hexdigest()
             with self.lock:
-                self.digest[st.path] = d           # (several states of the e2undo catalogue share one target image)
+                self.digest[path] = d           # (several states of the e2undo catalogue share one target image)
         return d
 
     def _dir(self):
@@ -259,6 +321,7 @@ class Runner:
                 f.write("5000\n5001\n")
             self.tl.dir = d
             self.tl.have = None
+            self.tl.havej = None
         return d
 
     def run(self, st, inv):
@@ -269,6 +332,15 @@ class Runner:
         if self.tl.have != st.path:
             G.sparse_copy(st.path, img)
             self.tl.have = st.path
+        # the external journal device of the state: the second device of the target set (object 3), private copy
+        jnl = os.path.join(d, "target.jnl")
+        sjnl = getattr(st, "jnl", "")
+        jbefore = self.state_digest(st, sjnl) if sjnl else ""
+        if sjnl and self.tl.havej != sjnl:
+            G.sparse_copy(sjnl, jnl)
+            self.tl.havej = sjnl
+        if any("{jnl}" in a for a in inv.argv) and not sjnl:
+            die_broken("invocation %s needs a state with a journal device, %s has none" % (inv.id, st.id))
         out, outdir, trace = os.path.join(d, "out.e2i"), os.path.join(d, "outdir"), os.path.join(d, "trace.ndjson")
         zout, ulog = os.path.join(d, "zfile.undo"), os.path.join(d, "undo.log")
         for p in (out, trace, os.path.join(d, "script.dfs"), zout):
@@ -302,7 +374,7 @@ class Runner:
                 with open(zout, "wb") as f:
                     f.write(zbytes)
         sub = {"{img}": img, "{out}": out, "{outdir}": outdir, "{undo}": ulog, "{zout}": zout,
-               "{host}": os.path.join(d, "host_small"), "{host_bb}": os.path.join(d, "host_bb"), "{bk}": "2049"}
+               "{jnl}": jnl, "{host}": os.path.join(d, "host_small"), "{host_bb}": os.path.join(d, "host_bb"), "{bk}": "2049"}
         if any("{outcopy}" in a for a in inv.argv):
             G.sparse_copy(img, out)
             sub["{outcopy}"] = out
@@ -320,7 +392,17 @@ class Runner:
                 a = sp
             argv.append(a)
         env = dict(self.env)
-        env.update({"LD_PRELOAD": IOTRACE, "VERIF_IOTRACE_TARGET": ":".join((img, zout, ulog)), "VERIF_IOTRACE_OUT": trace})
+        env.update({"LD_PRELOAD": IOTRACE, "VERIF_IOTRACE_TARGET": ":".join((img, zout, ulog, jnl)), "VERIF_IOTRACE_OUT": trace})
+        if sjnl:
+            # the tools look the journal device up by s_journal_uuid through libblkid: a private cache file names the
+            # private copy (written afresh for every run: libblkid rewrites its cache file)
+            bl = os.path.join(d, "blkid.tab")
+            for p_ in (bl, bl + ".old"):
+                if os.path.exists(p_):
+                    os.unlink(p_)
+            with open(bl, "w") as f:
+                f.write('<device DEVNO="0x0000" TIME="1600000000.0" UUID="%s" TYPE="jbd">%s</device>\n' % (G.JNL_UUID, jnl))
+            env["BLKID_FILE"] = bl
         t0 = time.time()
         timed_out = False
         try:
@@ -335,6 +417,9 @@ class Runner:
         after = hashlib.sha256(open(img, "rb").read()).hexdigest() if os.path.exists(img) else "missing"
         if after != before:
             self.tl.have = None             # next run starts from a fresh copy
+        jafter = (hashlib.sha256(open(jnl, "rb").read()).hexdigest() if os.path.exists(jnl) else "missing") if sjnl else ""
+        if jafter != jbefore:
+            self.tl.havej = None
         events = []
         if os.path.exists(trace):
             for ln in open(trace):
@@ -351,7 +436,7 @@ class Runner:
         undo_changed = int(uses_undo and os.path.exists(ulog) and open(ulog, "rb").read() != undo_before)
         return dict(state=st.id, inv=inv.id, tool=inv.tool, cls=inv.cls, argv=[a.replace(d, "$D") for a in argv],
                     code=rc if rc >= 0 else 0, sig=-rc if rc < 0 else 0, timeout=int(timed_out), ms=ms,
-                    digest_equal=int(after == before), events=events, stderr=errs[-400:], marks=marks, undo_changed=undo_changed)
+                    digest_equal=int(after == before), jdigest_equal=int(jafter == jbefore), events=events, stderr=errs[-400:], marks=marks, undo_changed=undo_changed)
 
 
 def to_behaviour(res):
@@ -371,13 +456,16 @@ def to_behaviour(res):
             lines.append(json.dumps({"e": e, "fd": fd, "obj": ev["tgt"]}))
         else:
             die_broken("unknown iotrace event %r" % e)
-    lines.append(json.dumps({"e": "exit", "code": res["code"], "sig": res["sig"], "digest_equal": res["digest_equal"]}))
+    lines.append(json.dumps({"e": "exit", "code": res["code"], "sig": res["sig"], "digest_equal": res["digest_equal"], "jdigest_equal": res["jdigest_equal"]}))
     return lines
 
 
 def predict(res):
     """What Trace_ToolRun must say about this run: (verdict, detail); verdict in ok | write | digest | exitdoc | shape."""
     res["opened_target"] = int(any(ev["e"] == "open" and ev["tgt"] == 0 for ev in res["events"]))
+    res["opened_jdev"] = int(any(ev["e"] == "open" and ev["tgt"] == 3 for ev in res["events"]))
+    res["nwr_j"] = 0
+    objname = {0: "the target", 3: "the external journal device (target set)"}
     res["auxw"], res["auxopened"] = 0, []
     openfds, modified, refused, nwr = {}, False, 0, 0
     auxfds, auxw, auxopened = {}, 0, set()
@@ -387,7 +475,7 @@ def predict(res):
             pids.append(ev["pid"])
         fd = ev["fd"] + 4096 * pids.index(ev["pid"])
         e = ev["e"]
-        if ev["tgt"] != 0:
+        if ev["tgt"] not in TARGET_OBJS:
             # an auxiliary file (the -z undo file, the undo log): ToolRunZ's Aux* steps, any class, never the device
             if e == "open":
                 if fd in openfds or fd in auxfds:
@@ -409,7 +497,7 @@ def predict(res):
             openfds[fd] = ev["acc"]
             if ev["trunc"] or ev["creat"]:
                 if res["cls"] == "ro":
-                    return "write", "open of the target with O_TRUNC/O_CREAT"
+                    return "write", "open of %s with O_TRUNC/O_CREAT" % objname[ev["tgt"]]
                 modified = True
         elif e in WR_EVENTS:
             if fd not in openfds:
@@ -418,9 +506,10 @@ def predict(res):
                 refused += 1
             else:
                 nwr += 1
+                res["nwr_j"] += ev["tgt"] == 3
                 if res["cls"] == "ro":
                     off = ev["off_hi"] * (1 << 31) + ev["off_lo"]
-                    return "write", "%s(fd=%d opened %s, offset=%d, len=%d) on the target" % (e, ev["fd"], openfds[fd], off, ev["len"])
+                    return "write", "%s(fd=%d opened %s, offset=%d, len=%d) on %s" % (e, ev["fd"], openfds[fd], off, ev["len"], objname[ev["tgt"]])
                 modified = True
         elif e == "fsync":
             if fd not in openfds:
@@ -430,8 +519,8 @@ def predict(res):
                 return "shape", "close of an fd that is not open"
             del openfds[fd]
     res["refused"], res["nwr"] = refused, nwr
-    if not res["digest_equal"] and not modified:
-        return "digest", "sha256 of the target changed although no write-class call was recorded"
+    if not (res["digest_equal"] and res["jdigest_equal"]) and not modified:
+        return "digest", "sha256 of %s changed although no write-class call was recorded" % (objname[0] if not res["digest_equal"] else objname[3])
     if res["sig"] == 0 and not doc_exit(res["tool"], res["cls"], res["code"]):
         return "exitdoc", "exit status %d is not in the contract table of %s (%s)" % (res["code"], res["tool"], res["cls"])
     return "ok", ""
@@ -533,10 +622,27 @@ def plan_round2(states, ustates, invs, univ, tier, rng):
     return pairs
 
 
+def plan_round3(xstates, invs, univ):
+    """External journal device: the WHOLE catalogue ToolRunUniv!ExtJRuns in both tiers (journal flavour x state of the journal
+    device x form x reach, ~540 runs of a few ms), writing control runs included."""
+    sby = {s.id: s for s in xstates}
+    iby = {i.id: i for i in invs if i.group.startswith("extj_")}
+    pairs = []
+    for x in sorted(univ["extj"], key=lambda x: (x["profile"], x["jstate"], x["tool"], x["form"], x["reach"], x["class"])):
+        sid = "xj_%s/%s" % (x["profile"], x["jstate"])
+        iid = "xj:%s-%s:%s%s" % (x["tool"], x["form"], x["reach"], "" if x["class"] == "ro" else ":ctl")
+        if sid not in sby:
+            die_broken("image state %s of ToolRunUniv!ExtJImages was not generated" % sid)
+        if iid not in iby:
+            die_broken("run %s of ToolRunUniv!ExtJRuns has no invocation" % iid)
+        pairs.append((sby[sid], iby[iid]))
+    return pairs
+
+
 def plan(states, invs, tier, rng):
     """The (state, invocation) pairs of this tier.  thorough = the full cross product (controls on clean / journal / orphan
     states only); quick = every invocation on >= 3 states of different kinds + every state at least twice."""
-    invs = [i for i in invs if not i.group.startswith("z_") and i.group != "e2undo_catalogue"]      # round 2: plan_round2
+    invs = [i for i in invs if not i.group.startswith(("z_", "extj_")) and i.group != "e2undo_catalogue"]      # round 2 / 3: plan_round2 / plan_round3
     ro = [i for i in invs if i.cls == "ro" and i.group != "c06_probe"]
     probe = [i for i in invs if i.group == "c06_probe"]
     ctl = [i for i in invs if i.cls == "rw"]
@@ -607,17 +713,19 @@ def execute(b, work, pairs):
 
 
 def build_universe(b, work, tier, only=None, univ=None):
-    """-> (image states, (target, undo log) states of the e2undo catalogue, skipped recipes, seconds)"""
+    """-> (image states, (target, undo log) states of the e2undo catalogue, (filesystem, journal device) states of the
+    external-journal catalogue, skipped recipes, seconds)"""
     t0 = time.time()
     try:
         states, skipped = G.build_states(b, tool_env(b), os.path.join(work, "states"), tier, seed(), only=only,
                                          axes=univ["axes"] if univ else (), undo_catalogue=univ["undo_catalogue"] if univ else (),
-                                         iotrace=IOTRACE)
+                                         iotrace=IOTRACE, extj=univ["extj_images"] if univ else ())
     except G.GenError as e:
         die_broken("image generator failed: %s" % e)
     ustates = [s for s in states if s.kind == "undolog"]
-    states = [s for s in states if s.kind != "undolog"]
-    return states, ustates, skipped, time.time() - t0
+    xstates = [s for s in states if s.kind == "extjournal"]
+    states = [s for s in states if s.kind not in ("undolog", "extjournal")]
+    return states, ustates, xstates, skipped, time.time() - t0
 
 
 def run(tier):
@@ -638,12 +746,13 @@ def run(tier):
         mcf = mcpool.submit(model_check, shim, work)
         univ = load_universe(work)
         ev.add_tlc(univ["tlc"], "Emit_ToolRunUniv: catalogues of ToolRunUniv enumerated, ASSUME DryNeverFsck, GuardCoverage evaluated")
-        states, ustates, skipped, tgen = build_universe(b, work, tier, univ=univ)
+        states, ustates, xstates, skipped, tgen = build_universe(b, work, tier, univ=univ)
         invs = invocations(univ)
         rng = random.Random(seed())
         pairs = plan(states, invs, tier, rng)
         pairs += plan_round2(states, ustates, invs, univ, tier, random.Random(seed() + 7919))
-        states = states + ustates
+        pairs += plan_round3(xstates, invs, univ)
+        states = states + ustates + xstates
         runner = Runner(b, work)            # parent-side runner: re-runs of candidates
         t0 = time.time()
         results = execute(b, work, pairs)
@@ -691,6 +800,16 @@ def oracle_selftest(ev, results, preds, behs, work):
     # ... and a write on the target through a descriptor number that belongs to an auxiliary file is no step at all
     variants["aux_fd_claimed_as_target"] = (base[:oi + 1] + aux[:1] + [json.dumps({"e": "pwrite", "fd": 998, "obj": 0, "off_hi": 0, "off_lo": 0,
                                                                                  "len": 1024, "x": 0})] + base[oi + 1:], True)
+    # round 3: the external journal device (object 3) is part of the target set -- a write on a writable descriptor of it, or a
+    # changed digest of it, must be rejected in a read-only run exactly like on object 0
+    jop = json.dumps({"e": "open", "fd": 997, "obj": 3, "acc": "rdwr", "creat": 0, "trunc": 0, "excl": 1})
+    jwr = json.dumps({"e": "pwrite", "fd": 997, "obj": 3, "off_hi": 0, "off_lo": 2048, "len": 1024, "x": 0})
+    exj = json.loads(base[-1]); exj["jdigest_equal"] = 0
+    variants["journal_device_opened_rdwr"] = (base[:oi + 1] + [jop] + base[oi + 1:], False)
+    variants["journal_device_written"] = (base[:oi + 1] + [jop, jwr] + base[oi + 1:], True)
+    variants["journal_device_digest_flipped"] = (base[:-1] + [json.dumps(exj)], True)
+    variants["unknown_object"] = (base[:oi + 1] + [json.dumps({"e": "open", "fd": 996, "obj": 7, "acc": "rdonly", "creat": 0, "trunc": 0, "excl": 0})]
+                                  + base[oi + 1:], True)
     out = {}
     for name, (beh, want_rej) in variants.items():
         sub = os.path.join(work, "ost_" + name)
@@ -790,6 +909,32 @@ def judge(ev, vd, runner, states, invs, pairs, results, work, tier, timing, univ
     blind_tools = [t for t in set(r["tool"] for r in results) if seen_open[t] == 0]
     if blind_tools:
         die_broken("instrumentation incomplete: no open() of the target was recorded in any run of %s" % ", ".join(sorted(blind_tools)))
+    # ---- round 3 sanity: the universe must REACH the journal device (read-only runs open it, writing control runs are seen
+    # writing it and change its digest); otherwise the recorder / the lookup through BLKID_FILE / -j is not working
+    xruns = [r for r in results if ibyid[r["inv"]].group.startswith("extj_")]
+    if xruns:
+        xctl = [r for r in xruns if r["cls"] == "rw"]
+        seenw = [r for r in xctl if r.get("nwr_j", 0) > 0 and not r["jdigest_equal"]]
+        if not seenw:
+            die_broken("instrumentation incomplete: none of the %d writing control runs on states with an external journal device was seen "
+                       "writing the journal device (e.g. %s)" % (len(xctl), xctl[0]["stderr"][-200:] if xctl else "no control run"))
+        reach = collections.Counter()
+        for r in xruns:
+            if r["cls"] == "ro":
+                m = ibyid[r["inv"]].meta
+                reach[(r["tool"], m["reach"])] += r["opened_jdev"]
+        for need in (("e2fsck", "opt"), ("e2fsck", "uuid"), ("debugfs", "opt"), ("debugfs", "uuid"), ("tune2fs", "self"), ("dumpe2fs", "self"),
+                     ("e2image", "self")):
+            if not reach[need] and not any(p[0] in ("write", "digest") for p in preds):
+                die_broken("no read-only run of %s reaching the journal device by '%s' opened it: the universe does not exercise the "
+                           "external journal device" % need)
+        ev.cov["round3"] = {
+            "catalogue_runs": len(univ["extj"]) if univ else 0, "runs": len(xruns), "journal_device_images": len({r["state"] for r in xruns}),
+            "ro_runs_that_opened_the_journal_device": sum(r["opened_jdev"] for r in xruns if r["cls"] == "ro"),
+            "ro_runs_with_a_writable_descriptor_of_the_journal_device": sum(
+                1 for r in xruns if r["cls"] == "ro" and any(e["e"] == "open" and e["tgt"] == 3 and e["acc"] != "rdonly" for e in r["events"])),
+            "opened_by_tool_and_reach": {"%s/%s" % k: v for k, v in sorted(reach.items())},
+            "control_runs": len(xctl), "control_runs_seen_writing_the_journal_device": len(seenw)}
     oracle_selftest(ev, results, preds, behs, work)
     # ---- bulk validation of the runs predicted to be accepted
     ok_idx = [k for k, p in enumerate(preds) if p[0] == "ok"]
@@ -874,12 +1019,14 @@ def judge(ev, vd, runner, states, invs, pairs, results, work, tier, timing, univ
     ev.cov["rule"] = ("universe = image states x invocations; one evaluation = one tool run under iotrace.so on a private copy of the state, "
                       "its event stream + exit line validated against Trace_ToolRun; non-trivial = read-only-class run on an image state "
                       "other than 'clean' (journal needing recovery / s_errno set, orphan list/file, MMP, quota, corruption recipe, random damage, "
-                      "post-tune2fs, or a (target, undo log) pair of the e2undo catalogue); distinct by (invocation id, state id).  The -z forms, "
-                      "the journal x orphan axis points and the e2undo dry-run catalogue are enumerated by TLC from spec/ToolRunUniv.tla")
+                      "post-tune2fs, a (target, undo log) pair of the e2undo catalogue, or a (filesystem, external journal device) pair); distinct by (invocation id, state id).  The -z forms, "
+                      "the journal x orphan axis points, the e2undo dry-run catalogue and the external-journal-device catalogue (flavour x journal device "
+                      "state x form x reach) are enumerated by TLC from spec/ToolRunUniv.tla")
     ev.cov["universe"] = {"states": len(states), "profiles": len(G.PROFILES), "invocations_ro": len([i for i in invs if i.cls == "ro" and i.group != "c06_probe"]),
                           "invocations_control_rw": len([i for i in invs if i.cls == "rw"]), "pairs_run": len(pairs),
                           "invocations_z": len([i for i in invs if i.group.startswith("z_")]),
                           "invocations_e2undo_catalogue": len([i for i in invs if i.group == "e2undo_catalogue"]),
+                          "invocations_ext_journal": len([i for i in invs if i.group.startswith("extj_")]),
                           "states_by_kind": dict(collections.Counter(s.kind for s in states)),
                           "runs_by_group": dict(collections.Counter(ibyid[r["inv"]].group for r in results))}
     ev.cov["exit_histogram"] = {k: dict(v) for k, v in sorted(hist.items())}
@@ -907,6 +1054,10 @@ def judge(ev, vd, runner, states, invs, pairs, results, work, tier, timing, univ
         "that permits writing counts as a modification even if it stores the bytes already there (device-level reading of 'modify'; "
         "with the fixed fake clock a superblock flush can rewrite identical bytes); the sha256 comparison is the independent second oracle",
         "a write-class call on an O_RDONLY descriptor cannot change the device (EBADF) and is only counted (refused_write_attempts)",
+        "the target of an invocation is the SET of devices it names or reaches (ToolRunZ!TargetObjs): the device of the command line (object 0) "
+        "and the external journal device (object 3: -j, logdump -f, s_journal_uuid lookup through a private BLKID_FILE cache, or the journal "
+        "device itself on the command line); journal device images are regular files made by mke2fs -O journal_dev and attached with debugfs "
+        "(mke2fs -J device= insists on a block special file); the descriptors libblkid opens on the journal device are traced like the tool's own",
         "the file named by -z and the undo log given to e2undo are auxiliary files, not the target (ToolRunZ): calls on them are traced "
         "(iotrace objects 1 and 2) and are steps of every class; each run gets a private copy of the undo log",
         "the expectation of the e2undo guard-chain model (ToolRunUniv!Expect) is compared with exit status, open() of the target and the three "
@@ -932,8 +1083,8 @@ def replay(path):
     try:
         b = build.build()
         univ = load_universe(work)
-        states, ustates, _, _ = build_universe(b, work, rp.get("tier", "quick"), only=[rp["state"]], univ=univ)
-        st = [s for s in states + ustates if s.id == rp["state"]]
+        states, ustates, xstates, _, _ = build_universe(b, work, rp.get("tier", "quick"), only=[rp["state"]], univ=univ)
+        st = [s for s in states + ustates + xstates if s.id == rp["state"]]
         inv = [i for i in invocations(univ) if i.id == rp["inv"]]
         if not st or not inv:
             die_broken("replay refers to an unknown state or invocation: %s / %s" % (rp["state"], rp["inv"]))
